@@ -632,6 +632,15 @@ int32 eccTestPoint(psPool_t *pool, psEccPoint_t *P, pstm_int *prime,
     pstm_digit *paD;
     int32 err;
 
+    /* The coordinates must be field elements, 0 <= x, y < p (SEC 1,
+       section 3.2.2.1). The curve equation below is evaluated mod p, so
+       without this test (x + p, y) is accepted for every valid (x, y). */
+    if (pstm_cmp(&P->x, prime) != PSTM_LT || pstm_cmp(&P->y, prime) != PSTM_LT)
+    {
+        psTraceCrypto("Supplied EC public point coordinate out of range\n");
+        return PS_LIMIT_FAIL;
+    }
+
     if ((err = pstm_init(pool, &t1)) < 0)
     {
         return err;
